@@ -815,6 +815,43 @@ fn gen_c06(cfg: &GenCfg, rng: &mut Rng, w: &mut dyn Write, kind: &str) {
                 }
                 writeln!(w, "op r4 {} {} {}", o2, a, b).unwrap();
             }
+            // the same operation with a larger and then a smaller variable set / cube (and vice
+            // versa): an entry memoised for one operand tuple must not be served for another
+            let n_now = n; // (the history above may have added variables; sets use the first n)
+            for i in 0..10 {
+                let f = r2.pick(&pool).clone();
+                let g = r2.pick(&pool).clone();
+                let big: Vec<u32> = (0..n_now).filter(|_| r2.chance(2, 3)).collect();
+                let small: Vec<u32> = big.iter().copied().filter(|_| r2.chance(1, 2)).collect();
+                let set = |vs: &Vec<u32>| vs.iter().map(|v| format!(" +{}", v)).collect::<String>();
+                writeln!(w, "cube vb{}{}", i, set(&big)).unwrap();
+                writeln!(w, "cube vs{}{}", i, set(&small)).unwrap();
+                let lits = |vs: &Vec<u32>, r: &mut Rng| vs.iter().map(|v| format!(" {}{}", if r.chance(1, 2) { "+" } else { "-" }, v)).collect::<String>();
+                let lb = lits(&big, &mut r2);
+                // the sub-cube keeps the polarity of the literals it shares
+                let ls: String = lb.split_whitespace().filter(|l| small.contains(&l[1..].parse::<u32>().unwrap())).map(|l| format!(" {}", l)).collect();
+                writeln!(w, "cube cb{}{}", i, lb).unwrap();
+                writeln!(w, "cube cs{}{}", i, ls).unwrap();
+                let (first, second) = if r2.chance(1, 2) { ("b", "s") } else { ("s", "b") };
+                if !zbdd(kind) {
+                    for q in ["exists", "forall", "unique"] {
+                        writeln!(w, "quant r1 {} {} v{}{}", q, f, first, i).unwrap();
+                        writeln!(w, "quant r2 {} {} v{}{}", q, f, second, i).unwrap();
+                        let op = r2.pick(&BIN_OPS);
+                        writeln!(w, "applyq r3 {} {} {} {} v{}{}", q, op, f, g, first, i).unwrap();
+                        writeln!(w, "applyq r4 {} {} {} {} v{}{}", q, op, f, g, second, i).unwrap();
+                    }
+                }
+                writeln!(w, "restrict r5 {} c{}{}", f, first, i).unwrap();
+                writeln!(w, "restrict r6 {} c{}{}", f, second, i).unwrap();
+                if i % 3 == 2 {
+                    // variable addition between repetitions (the operands stay alive)
+                    writeln!(w, "addvars 1").unwrap();
+                    writeln!(w, "restrict r7 {} c{}{}", f, first, i).unwrap();
+                    writeln!(w, "restrict r8 {} c{}{}", f, second, i).unwrap();
+                    writeln!(w, "op r9 not {}", f).unwrap();
+                }
+            }
         }
     }
 }
